@@ -1,7 +1,6 @@
 (** C11, third clause: the options do not make DeepDiff raise - on inputs whose
-    dict keys are neither bytes (finding F5: the path printer) nor, when a
-    key-cleaning option is set without a precision, numbers (finding K8).
-    Under that guard the model never returns Err, with or without options. *)
+    dict keys are not numbers when a key-cleaning option is set without a
+    precision (finding K8).  Under that guard the model never returns Err. *)
 From Coq Require Import List ZArith NArith Bool Arith Lia.
 Import ListNotations.
 From DD Require Import Base.PyStr Base.Value Diff.Tree Diff.DiffModel Options.OptModel
@@ -13,9 +12,8 @@ Variable c : cfg.
 Variable udiff : pystr -> pystr -> pystr.
 Variable ops : path -> list value -> list value -> list opcode.
 
-(* every dict key anywhere: not bytes, and cleanable when key cleaning is active *)
-Definition key_safe (k : atom) : bool :=
-  negb (is_bytes k) && (negb (cleaning F) || key_cleanable F k).
+(* every dict key anywhere: cleanable when key cleaning is active *)
+Definition key_safe (k : atom) : bool := negb (cleaning F) || key_cleanable F k.
 Fixpoint safe (v : value) : bool :=
   match v with
   | VAtom _ | VSet _ | VFrozen _ => true
@@ -35,13 +33,6 @@ Proof.
   specialize (H _ Hin). cbn [fst snd] in H. apply andb_true_iff in H. tauto.
 Qed.
 
-Lemma clean_key_not_bytes : forall k ck, clean_key F k = Ok ck -> is_bytes k = false -> is_bytes ck = false.
-Proof.
-  intros k ck H Hb. destruct k; cbn [clean_key] in H; cbn in Hb; try discriminate;
-    try (inversion H; reflexivity);
-    destruct (eff_sig F); cbn in H; inversion H; reflexivity.
-Qed.
-
 (* clean_map succeeds on safe keys; its entries come from the keys (or the accumulator) *)
 Lemma clean_map_ok : forall ks acc,
   cleaning F = true -> (forall k, In k ks -> key_safe k = true) ->
@@ -51,7 +42,7 @@ Proof.
   induction ks as [|k r IH]; intros acc Hc Hs; cbn [clean_map].
   - exists (rev acc). split; [reflexivity|]. intros ck k H. left. apply in_rev. exact H.
   - pose proof (Hs k (or_introl eq_refl)) as Hk. unfold key_safe in Hk. rewrite Hc in Hk. cbn [negb orb] in Hk.
-    apply andb_true_iff in Hk. destruct Hk as [_ Hk]. destruct (clean_key_ok F k Hk) as [ck Eck].
+    destruct (clean_key_ok F k Hk) as [ck Eck].
     rewrite Eck. cbn [bind].
     destruct (mem_atom ck (map fst acc)).
     + destruct (IH acc Hc (fun x Hx => Hs x (or_intror Hx))) as [km [E Hin]].
@@ -60,17 +51,6 @@ Proof.
       exists km. split; [exact E|]. intros ck' k' H. destruct (Hin ck' k' H) as [H1|[H1 H2]].
       * destruct H1 as [H1|H1]; [inversion H1; subst; right; split; [left; reflexivity|exact Eck]|left; exact H1].
       * right. split; [right; exact H1|exact H2].
-Qed.
-
-Lemma key_reports_ok : forall kind cks other km kvs p1 p2,
-  (forall ck, In ck cks -> is_bytes (orig_key F km ck) = false) ->
-  exists es, key_reports F kind cks other km kvs p1 p2 = Ok es.
-Proof.
-  induction cks as [|ck r IH]; intros other km kvs p1 p2 H; cbn [key_reports]; [eexists; reflexivity|].
-  destruct (IH other km kvs p1 p2 (fun x Hx => H x (or_intror Hx))) as [es E].
-  destruct (mem_atom ck other); [exists es; exact E|].
-  rewrite (H ck (or_introl eq_refl) : bytes_key (orig_key F km ck) = false).
-  rewrite E. cbn [bind]. eexists; reflexivity.
 Qed.
 
 Theorem safe_no_raise : forall t1 t2 p1 p2,
@@ -104,39 +84,20 @@ Proof.
       destruct (IHxs Hxs Hb ys Hb2 (S i)) as [r2 E2]. rewrite E2. cbn [bind]. eexists; reflexivity.
   - destruct t2 as [b|ys|ys|kvs2|ys|ys]; try (eexists; reflexivity).
     (* the key maps *)
-    assert (forall kvs0, safe (VDict kvs0) = true ->
-            exists km, kmap F (keys_of c kvs0) = Ok km /\
-              (forall ck, In ck (ckeys F (keys_of c kvs0) km) -> is_bytes ck = false) /\
-              (forall ck, In ck (ckeys F (keys_of c kvs0) km) -> is_bytes (orig_key F km ck) = false)) as Hkm.
+    assert (forall kvs0, safe (VDict kvs0) = true -> exists km, kmap F (keys_of c kvs0) = Ok km) as Hkm.
     { intros kvs0 Hs0.
       assert (forall k, In k (keys_of c kvs0) -> key_safe k = true) as Hks.
       { intros k Hk. apply keys_of_In in Hk. destruct Hk as [Hk _]. exact (safe_key kvs0 k Hs0 Hk). }
-      unfold kmap, ckeys, orig_key. destruct (cleaning F) eqn:Hc.
-      - destruct (clean_map_ok (keys_of c kvs0) [] Hc Hks) as [km [E Hin]].
-        exists km. split; [exact E|].
-        assert (forall ck k, In (ck, k) km -> is_bytes ck = false /\ is_bytes k = false) as Hnb.
-        { intros ck k H. destruct (Hin ck k H) as [H1|[H1 H2]]; [destruct H1|].
-          pose proof (Hks k H1) as Hk. unfold key_safe in Hk. apply andb_true_iff in Hk. destruct Hk as [Hk _].
-          apply negb_true_iff in Hk. split; [exact (clean_key_not_bytes k ck H2 Hk)|exact Hk]. }
-        split.
-        + intros ck Hck. apply in_map_iff in Hck. destruct Hck as [[ck' k] [E' Hck]]. cbn in E'. subst. exact (proj1 (Hnb _ _ Hck)).
-        + intros ck Hck. destruct (assoc ck km) as [k|] eqn:Ea.
-          * apply assoc_In in Ea. destruct Ea as [ck0 [Ha _]]. exact (proj2 (Hnb _ _ Ha)).
-          * apply in_map_iff in Hck. destruct Hck as [[ck' k] [E' Hck]]. cbn in E'. subst. exact (proj1 (Hnb _ _ Hck)).
-      - exists []. split; [reflexivity|].
-        assert (forall ck, In ck (keys_of c kvs0) -> is_bytes ck = false) as Hb.
-        { intros ck Hck. specialize (Hks ck Hck). unfold key_safe in Hks. apply andb_true_iff in Hks. destruct Hks as [Hk _].
-          apply negb_true_iff in Hk. exact Hk. }
-        split; exact Hb. }
-    destruct (Hkm kvs Hs1) as [km1 [E1 [Hb1 Ho1]]].
-    destruct (Hkm kvs2 Hs2) as [km2 [E2 [Hb2 Ho2]]].
+      unfold kmap. destruct (cleaning F) eqn:Hc.
+      - destruct (clean_map_ok (keys_of c kvs0) [] Hc Hks) as [km [E _]]. exists km. exact E.
+      - exists []. reflexivity. }
+    destruct (Hkm kvs Hs1) as [km1 E1].
+    destruct (Hkm kvs2 Hs2) as [km2 E2].
     rewrite E1, E2. cbn [bind].
     destruct (shortcutF c _ _); [eexists; reflexivity|].
-    destruct (key_reports_ok KDictAdd _ (ckeys F (keys_of c kvs) km1) km2 kvs2 p1 p2 Ho2) as [ea Ea]. rewrite Ea. cbn [bind].
-    destruct (key_reports_ok KDictRem _ (ckeys F (keys_of c kvs2) km2) km1 kvs p1 p2 Ho1) as [er Er]. rewrite Er. cbn [bind].
     match goal with |- exists r, bind ?G _ = _ => assert (exists x, G = Ok x) as Hgo end.
     { assert (forall k v, In (k, v) kvs -> safe v = true) as Hv by (intros k v H; exact (safe_val kvs k v Hs1 H)).
-      clear E1 Er Ea Ho1 Hb1 Hs1. induction kvs as [|[k v1] r IHr]; [eexists; reflexivity|].
+      clear E1 Hs1. induction kvs as [|[k v1] r IHr]; [eexists; reflexivity|].
       inversion IH as [|? ? Hx Hxs]; subst. cbn [snd] in Hx.
       destruct (IHr Hxs (fun k' v' H => Hv k' v' (or_intror H))) as [rest Erest]. rewrite Erest.
       assert (exists x, (if keep_key c k then
@@ -145,13 +106,7 @@ Proof.
                     match find (py_eq ck) (ckeys F (keys_of c kvs2) km2) with
                     | Some ck' =>
                         match assoc (orig_key F km2 ck') kvs2 with
-                        | Some v2 =>
-                            if bytes_key ck' then
-                              match v1, v2 with
-                              | VAtom a, VAtom b => if atom_eqb a b then Ok ([], []) else Err EType
-                              | _, _ => Err EType
-                              end
-                            else diffF udiff ops c F v1 v2 (snoc p1 (PKey ck')) (snoc p2 (PKey ck'))
+                        | Some v2 => diffF udiff ops c F v1 v2 (snoc p1 (PKey ck')) (snoc p2 (PKey ck'))
                         | None => Ok ([], [])
                         end
                     | None => Ok ([], [])
@@ -161,9 +116,7 @@ Proof.
       { destruct (keep_key c k); [|eexists; reflexivity].
         destruct (repr_ckey F km1 k); [|eexists; reflexivity].
         destruct (find _ _) as [ck'|] eqn:Ef; [|eexists; reflexivity].
-        apply find_some in Ef. destruct Ef as [Ef _].
         destruct (assoc _ kvs2) as [v2|] eqn:Ea; [|eexists; reflexivity].
-        rewrite (Hb2 ck' Ef : bytes_key ck' = false).
         apply assoc_In in Ea. destruct Ea as [k2 [Hin _]].
         apply Hx; [exact (Hv k v1 (or_introl eq_refl))|exact (safe_val kvs2 k2 v2 Hs2 Hin)]. }
       rewrite Ex. cbn [bind]. eexists; reflexivity. }
